@@ -2061,6 +2061,10 @@ impl Connection {
             _ => unreachable!("first packet must be delivered in Handshake state"),
         }
 
+        // Record the packet number so that a replay of the first Initial is discarded as a
+        // duplicate by `handle_packet`
+        self.spaces[SpaceId::Initial].dedup.insert(packet_number);
+
         self.on_packet_authenticated(
             now,
             SpaceId::Initial,
